@@ -453,3 +453,88 @@ theorem ops_dbStoreEntry (m : MDesc) (fs : FS) : (Call.dbStoreEntry m).ops fs = 
   | mk o r => cases r <;> simp [outOf]
 
 end Pharmpy.C16
+
+namespace Pharmpy.C16
+
+/-- A transaction that returned normally has removed its marker. -/
+theorem txn_ok_no_pending (k : String) (body : Prog Unit) (fs : FS) (h : (txn k body fs).2 = .ok ()) :
+    pexists (applyAll fs (txn k body fs).1) (pendingPath k) = false := by
+  unfold txn at h ⊢
+  simp only at h ⊢
+  split at h
+  · cases h
+  · rename_i hP
+    simp only [hP, if_false]
+    generalize hb : body (apply (applyAll fs (openKey k fs)) (Op.create (pendingPath k))) = br at h ⊢
+    obtain ⟨b, r⟩ := br
+    cases r with
+    | error e => simp at h
+    | ok u =>
+      simp only [Bool.false_eq_true, if_false]
+      rw [applyAll_append]
+      simp only [applyAll, List.foldl_cons, List.foldl_nil, apply, pexists, get_filter_self]
+      rfl
+
+theorem storeKey_ops (name key : String) (fs : FS) :
+    (storeKey name key fs).1 = [] ∨ (storeKey name key fs).1 = [.symlink (namePath name) (keyDir key)] := by
+  unfold storeKey
+  simp only
+  repeat' split
+  all_goals simp
+
+theorem touch_paths {fs : FS} {p : Path} {o : Op} (h : o ∈ touch fs p) : o.path = p := by
+  unfold touch at h
+  split at h
+  · simp at h
+  · simp only [List.mem_cons, List.not_mem_nil, or_false] at h; subst h; rfl
+
+theorem storeAnnotation_paths {name descr : String} {fs : FS} {o : Op} (h : o ∈ (storeAnnotation name descr fs).1) :
+    o.path = annotationsLock ∨ o.path = annotationsPath := by
+  unfold storeAnnotation at h
+  simp only at h
+  split at h
+  · simp only [List.mem_append, List.mem_cons, List.not_mem_nil, or_false] at h
+    rcases h with h | rfl | rfl
+    · exact Or.inl (touch_paths h)
+    · exact Or.inr rfl
+    · exact Or.inr rfl
+  · exact Or.inl (touch_paths h)
+
+/-- Operations of the part of `_store_model` after the transaction: the name
+    link and the annotations file. -/
+theorem ctxTail_paths {name descr key : String} {fs : FS} {o : Op}
+    (h : o ∈ (((storeKey name key).andThen fun _ => storeAnnotation name descr) fs).1) :
+    o.path = namePath name ∨ o.path = annotationsLock ∨ o.path = annotationsPath := by
+  have hk : ∀ o ∈ (storeKey name key fs).1, o.path = namePath name := by
+    intro o ho
+    rcases storeKey_ops name key fs with e | e <;> rw [e] at ho
+    · simp at ho
+    · simp only [List.mem_cons, List.not_mem_nil, or_false] at ho; subst ho; rfl
+  unfold Prog.andThen at h
+  generalize hs : storeKey name key fs = sk at h hk
+  obtain ⟨o1, r1⟩ := sk
+  cases r1 with
+  | error e => exact Or.inl (hk o h)
+  | ok x =>
+    simp only at h
+    generalize ha : storeAnnotation name descr (applyAll fs o1) = sa at h
+    obtain ⟨o2, r2⟩ := sa
+    simp only [List.mem_append] at h
+    rcases h with h | h
+    · exact Or.inl (hk o h)
+    · exact Or.inr (storeAnnotation_paths (by rw [ha]; exact h))
+
+end Pharmpy.C16
+
+namespace Pharmpy.C16
+
+theorem andThen_fst {α β : Type} (a : Prog α) (b : α → Prog β) (fs : FS) :
+    (a.andThen b fs).1 = match (a fs).2 with
+      | .error _ => (a fs).1
+      | .ok x => (a fs).1 ++ (b x (applyAll fs (a fs).1)).1 := by
+  unfold Prog.andThen
+  generalize a fs = r
+  obtain ⟨o, x⟩ := r
+  cases x <;> rfl
+
+end Pharmpy.C16
